@@ -1,13 +1,16 @@
 #[cfg(not(feature = "std"))]
 use alloc::vec;
 
-use anyhow::ensure;
+use anyhow::{anyhow, ensure};
 
 use crate::field::extension::Extendable;
-use crate::fri::proof::{FriProof, FriQueryRound, FriQueryStep};
+use crate::fri::proof::{
+    CompressedFriProof, CompressedFriQueryRounds, FriProof, FriQueryRound, FriQueryStep,
+};
 use crate::fri::structure::FriInstanceInfo;
 use crate::fri::FriParams;
 use crate::hash::hash_types::RichField;
+use crate::hash::path_compression::compressed_merkle_proofs_shape_ok;
 use crate::plonk::config::GenericConfig;
 use crate::plonk::plonk_common::salt_size;
 
@@ -84,6 +87,100 @@ where
     }
 
     ensure!(final_poly.len() == params.final_poly_len());
+
+    Ok(())
+}
+
+/// Shape of a compressed FRI proof, relative to the query indices derived from the transcript:
+/// everything `get_inferred_elements` and `CompressedFriProof::decompress` index into.
+pub(crate) fn validate_compressed_fri_proof_shape<F, C, const D: usize>(
+    proof: &CompressedFriProof<F, C::Hasher, D>,
+    query_indices: &[usize],
+    instance: &FriInstanceInfo<F, D>,
+    params: &FriParams,
+) -> anyhow::Result<()>
+where
+    F: RichField + Extendable<D>,
+    C: GenericConfig<D, F = F>,
+{
+    let CompressedFriProof {
+        commit_phase_merkle_caps,
+        query_round_proofs,
+        final_poly,
+        pow_witness: _pow_witness,
+    } = proof;
+    let CompressedFriQueryRounds {
+        // Redundant with the transcript; only the byte encoding uses it.
+        indices: _indices,
+        initial_trees_proofs,
+        steps,
+    } = query_round_proofs;
+
+    let cap_height = params.config.cap_height;
+    let num_steps = params.reduction_arity_bits.len();
+    ensure!(commit_phase_merkle_caps.len() == num_steps);
+    for cap in commit_phase_merkle_caps {
+        ensure!(cap.len() == 1 << cap_height);
+    }
+    ensure!(final_poly.len() == params.final_poly_len());
+    ensure!(steps.len() == num_steps);
+    ensure!(params.lde_bits() >= cap_height + params.reduction_arity_bits.iter().sum::<usize>());
+    ensure!(query_indices.iter().all(|&i| i < 1 << params.lde_bits()));
+
+    // Per tree: the leaf indices in query order and the sibling counts of their compressed proofs.
+    let num_oracles = instance.oracles.len();
+    let mut initial_siblings = vec![vec![]; num_oracles];
+    let mut step_indices = vec![vec![]; num_steps];
+    let mut step_siblings = vec![vec![]; num_steps];
+    for &x_index in query_indices {
+        let initial = initial_trees_proofs
+            .get(&x_index)
+            .ok_or_else(|| anyhow!("Missing initial tree openings for a query index."))?;
+        ensure!(initial.evals_proofs.len() == num_oracles);
+        for (i, ((leaf, merkle_proof), oracle)) in
+            initial.evals_proofs.iter().zip(&instance.oracles).enumerate()
+        {
+            ensure!(leaf.len() == oracle.num_polys + salt_size(oracle.blinding && params.hiding));
+            initial_siblings[i].push(merkle_proof.len());
+        }
+        let mut index = x_index;
+        for (i, &arity_bits) in params.reduction_arity_bits.iter().enumerate() {
+            index >>= arity_bits;
+            let step = steps[i]
+                .get(&index)
+                .ok_or_else(|| anyhow!("Missing query step for a queried coset."))?;
+            ensure!(step.evals.len() + 1 == 1 << arity_bits);
+            step_indices[i].push(index);
+            step_siblings[i].push(step.merkle_proof.len());
+        }
+    }
+
+    // No data for indices that are not queried.
+    let distinct = |indices: &[usize]| {
+        let mut v = indices.to_vec();
+        v.sort_unstable();
+        v.dedup();
+        v.len()
+    };
+    ensure!(initial_trees_proofs.len() == distinct(query_indices));
+    for (step, indices) in steps.iter().zip(&step_indices) {
+        ensure!(step.len() == distinct(indices));
+    }
+
+    // The compressed Merkle paths carry exactly the siblings that decompression consumes.
+    let mut height = params.lde_bits();
+    for counts in &initial_siblings {
+        ensure!(compressed_merkle_proofs_shape_ok(query_indices, counts, height, cap_height));
+    }
+    for (i, &arity_bits) in params.reduction_arity_bits.iter().enumerate() {
+        height -= arity_bits;
+        ensure!(compressed_merkle_proofs_shape_ok(
+            &step_indices[i],
+            &step_siblings[i],
+            height,
+            cap_height
+        ));
+    }
 
     Ok(())
 }
